@@ -337,7 +337,7 @@ def main(argv=None):
         c = contracts[i]
         old, new, expect = c.canaries[k]
         failed = sorted({v["obligation"] for v in r["violations"]})
-        ok = (not failed and not r["undecided"]) if expect is None else any(expect in f for f in failed)
+        ok = (not failed and not r["undecided"] and not r["error"]) if expect is None else any(expect in f for f in failed)
         canary_report.append({"contract": c.name, "edit": [old, new], "expect": expect, "failed": failed,
                               "unsupported": r["unsupported"], "ok": bool(ok)})
         if not ok:
